@@ -6,6 +6,7 @@
   `numerator = a` and `error = e` (no division by zero met).  `K` is any field.
 -/
 import ALV.Lemmas.C10Min
+import ALV.Lemmas.C10LevErr
 import ALV.Lemmas.C10Cov2
 import ALV.Common.Audit
 
@@ -80,6 +81,44 @@ theorem levinson_error (r : List K) (order : Option Nat) (a : List K) (e : K)
     have hinv := levIter_inv _ p a h1
     rw [h2, hinv.inner_self, predError_eq]
     exact Nf_congr_r _ _ _ _ _ (coef_zeroExt r p)
+
+/-- **C10.1c** (the excluded inputs, exactly).  For a definite order the only exception is
+ParCorError, and it is raised iff some smaller order has a zero prediction error (the divisor
+`inner(B, B)` of pass m+1 *is* the error of order m). -/
+theorem levinson_raises_iff (r : List K) (p : Nat) :
+    (∃ e, levinson r (some p) = .error e) ↔
+      ∃ m, m < p ∧ ∃ a, levinson r (some m) = .ok (a, 0) := by
+  have hc : ∀ m k, coef (zeroExt r m) k = coef (zeroExt r p) k := fun m k => by
+    rw [coef_zeroExt, coef_zeroExt]
+  constructor
+  · rintro ⟨e, he⟩
+    simp only [levinson] at he
+    cases hA : levIter (zeroExt r p) p with
+    | ok A => rw [hA] at he; cases he
+    | error e' =>
+      obtain ⟨_, m, hm, A, h1, h2⟩ := levIter_error hA
+      refine ⟨m, hm, A, ?_⟩
+      simp only [levinson, levIter_congr _ _ (hc m) m, h1]
+      show Except.ok (A, inner (zeroExt r m) A A) = Except.ok (A, 0)
+      rw [inner_congr _ _ A A (hc m), h2]
+  · rintro ⟨m, hm, a, h⟩
+    obtain ⟨h1, h2⟩ := levinson_some_ok h
+    rw [levIter_congr _ _ (hc m) m] at h1
+    rw [inner_congr _ _ a a (hc m)] at h2
+    refine ⟨"ParCorError", ?_⟩
+    simp only [levinson, levIter_error_of_zero h1 h2.symm hm]
+    rfl
+
+theorem levinson_raises_kind (r : List K) (p : Nat) (e : String)
+    (h : levinson r (some p) = .error e) : e = "ParCorError" := by
+  simp only [levinson] at h
+  cases hA : levIter (zeroExt r p) p with
+  | ok A => rw [hA] at h; cases h
+  | error e' =>
+    rw [hA] at h
+    injection h with h
+    subst h
+    exact (levIter_error hA).1
 
 /-- non-vacuity: the recursion returns on a non-trivial lag vector, with the documented values
     (`levinson_durbin([1, 1/2, 1/4, 1/3], 3)`), and raises on a singular one -/
